@@ -3,11 +3,15 @@
 package checks
 
 import (
+	"bytes"
+	"crypto/sha256"
+	"encoding/binary"
 	"fmt"
 	"math"
 	"math/big"
 	"math/bits"
 	"sort"
+	"strings"
 	"sync"
 	"sync/atomic"
 
@@ -765,6 +769,9 @@ func C15(run *mon.Run) {
 		run.Eval(1)
 	}
 	if run.ViolationCount() == 0 {
+		c15HistoryIndependence(run)
+	}
+	if run.ViolationCount() == 0 {
 		c15Volume(run)
 	}
 	run.Exhaustive = false
@@ -875,6 +882,164 @@ func c15Volume(run *mon.Run) {
 		}(ci, c)
 	}
 	wg.Wait()
+}
+
+// c15HistoryIndependence: every sampling call is a function of the source bytes that follow the
+// current position and of nothing else. One generator runs a sequence of calls with bounds of all
+// byte sizes (in particular large bounds followed by small ones); each call is mirrored on a fresh
+// generator positioned at the same point of the same source (a copy of the tape from that offset, or a
+// ChaCha20 generator restored from Store()). Outputs, consumed bytes and resulting states must agree,
+// and every UintN result must be below its bound.
+func c15HistoryIndependence(run *mon.Run) {
+	bounds := []uint64{1 << 8, 1 << 16, 1 << 24, 1 << 32, 1 << 40, 1 << 48, 1 << 56, 1<<8 + 1, 1<<16 + 1, 1<<16 - 1, 1<<32 + 1, 1<<24 - 1, 1 << 63, ^uint64(0), 1, 2, 3, 7, 100, 200, 255, 257, 1000, 65535, 70000, 1 << 20, 1 << 12, 1 << 4, 1 << 36}
+	nSeq := run.Pick(320, 6000)
+	var wg sync.WaitGroup
+	sem := make(chan struct{}, 16)
+	for si := 0; si < nSeq; si++ {
+		wg.Add(1)
+		sem <- struct{}{}
+		go func(si int) {
+			defer wg.Done()
+			defer func() { <-sem }()
+			defer run.Protect("c15 history")
+			r := run.Rand(fmt.Sprintf("hist-%d", si))
+			useTape := si%2 == 0
+			tapeLen := 1 << 16
+			bigPerm := si%40 == 6
+			if bigPerm {
+				tapeLen = 1 << 20
+			}
+			var data []byte
+			var t *tape
+			var g random.Rand
+			if useTape {
+				data = mon.RandBytes(r, tapeLen)
+				t = &tape{data: data}
+				g = random.NewVerifRand(t)
+			} else {
+				var err error
+				g, err = random.NewChacha20PRG(mon.RandBytes(r, 32), mon.RandBytes(r, si%13))
+				if err != nil {
+					return
+				}
+			}
+			steps := 6 + r.IntN(26)
+			var trace []string
+			descending := si%4 < 2 // half of the sequences favour a large bound right before a smaller one
+			lastSize := 0
+			for st := 0; st < steps; st++ {
+				var name string
+				var call func(random.Rand) string
+				switch x := r.IntN(10); {
+				case x < 6:
+					n := bounds[r.IntN(len(bounds))]
+					if descending && lastSize > 1 && r.IntN(3) > 0 {
+						// a bound whose byte size is smaller than the previous one's
+						for tries := 0; tries < 20 && byteSize(n-1) >= lastSize; tries++ {
+							n = bounds[r.IntN(len(bounds))]
+						}
+					}
+					lastSize = byteSize(n - 1)
+					name = fmt.Sprintf("UintN(%d)", n)
+					call = func(g random.Rand) string {
+						v := g.UintN(n)
+						if v >= n {
+							return fmt.Sprintf("OUT-OF-RANGE:%d", v)
+						}
+						return fmt.Sprint(v)
+					}
+				case x < 8:
+					k := []int{0, 1, 2, 5, 10, 255, 256, 257, 300, 700}[r.IntN(10)]
+					if bigPerm && st == 1 {
+						k = 66000
+					}
+					lastSize = byteSize(uint64(max(k, 1) - 1))
+					name = fmt.Sprintf("Permutation(%d)", k)
+					call = func(g random.Rand) string {
+						p, err := g.Permutation(k)
+						if err != nil || !validPerm(p, k) {
+							return fmt.Sprintf("INVALID:%v", err)
+						}
+						h := sha256.New()
+						for _, v := range p {
+							var b [4]byte
+							binary.LittleEndian.PutUint32(b[:], uint32(v))
+							h.Write(b[:])
+						}
+						return fmt.Sprintf("%x", h.Sum(nil)[:8])
+					}
+				case x < 9:
+					n := []int{1, 2, 9, 256, 257, 300, 5000}[r.IntN(7)]
+					m := []int{0, 1, n / 2, n}[r.IntN(4)]
+					lastSize = byteSize(uint64(n - 1))
+					name = fmt.Sprintf("Samples(%d,%d)", n, m)
+					call = func(g random.Rand) string {
+						out, viol := swapOutcome(n, m, func(sw func(i, j int)) error { return g.Samples(n, m, sw) })
+						if viol != "" {
+							return "INVALID:" + viol
+						}
+						return fmt.Sprintf("%x", sha256.Sum256([]byte(out)))[:16]
+					}
+				default:
+					n := []int{0, 1, 7, 8, 9, 64, 65}[r.IntN(7)]
+					name = fmt.Sprintf("Read(%d)", n)
+					call = func(g random.Rand) string {
+						b := make([]byte, n)
+						g.Read(b)
+						return mon.Hex(b)
+					}
+				}
+				trace = append(trace, name)
+				rep := map[string]any{"sequence": trace, "source": map[bool]string{true: "tape", false: "chacha20"}[useTape], "index": si}
+				var fresh random.Rand
+				var t2 *tape
+				var state []byte
+				if useTape {
+					t2 = &tape{data: data, pos: t.pos}
+					fresh = random.NewVerifRand(t2)
+				} else {
+					state = g.Store()
+					var err error
+					fresh, err = random.RestoreChacha20PRG(state)
+					if err != nil {
+						run.Violate("C15:history:restore-refused", err.Error(), rep)
+						return
+					}
+				}
+				var a, b string
+				okA := tryRun(func() { a = call(g) })
+				okB := tryRun(func() { b = call(fresh) })
+				run.Eval(1)
+				if !okA && !okB {
+					break // tape exhausted on both
+				}
+				if okA != okB || a != b {
+					run.Violate("C15:history-dependence:"+strings.SplitN(name, "(", 2)[0], fmt.Sprintf("after the calls %v the call %s returns %s (completed=%v) on the generator with that history and %s (completed=%v) on a fresh generator at the same source position", trace[:len(trace)-1], name, a, okA, b, okB), rep)
+					return
+				}
+				if strings.HasPrefix(a, "OUT-OF-RANGE") || strings.HasPrefix(a, "INVALID") {
+					run.Violate("C15:history:"+strings.SplitN(a, ":", 2)[0], fmt.Sprintf("after the calls %v the call %s gives %s", trace[:len(trace)-1], name, a), rep)
+					return
+				}
+				if useTape {
+					if t.pos != t2.pos {
+						run.Violate("C15:history-dependence:consumed", fmt.Sprintf("after the calls %v the call %s leaves the source at byte %d with that history and at byte %d on a fresh generator", trace[:len(trace)-1], name, t.pos, t2.pos), rep)
+						return
+					}
+				} else if !bytes.Equal(g.Store(), fresh.Store()) {
+					run.Violate("C15:history-dependence:state", fmt.Sprintf("after the calls %v and %s the stored states of the original and the restored generator differ", trace[:len(trace)-1], name), rep)
+					return
+				}
+				run.Count("history.calls", 1)
+			}
+			run.Shape(fmt.Sprintf("history|%v|%d", useTape, min(len(trace), 12)))
+			if si < 2 {
+				run.Sample(map[string]any{"history_sequence": trace, "tape": useTape})
+			}
+		}(si)
+	}
+	wg.Wait()
+	run.Require(run.Counter("history.calls") >= int64(nSeq), "too few mirrored calls in the history-independence leg")
 }
 
 func init() { Registry["C15"] = C15 }
